@@ -89,6 +89,7 @@ def get_sdr_data_helper(reserve_fn, get_fn, record_id, reservation_id=None):
                 max_req_len -= 4
                 if max_req_len <= 0:
                     retry = 0
+                continue
             else:
                 raise CompletionCodeError(e.cc)
 
